@@ -123,8 +123,7 @@ def lean_int(n):
 def emit(fams, lists):
     out = ['/- GENERATED by translate/rules.py from src/quadrature_rules.py -- do not edit. -/',
            'import Stbem.Model.RuleCheck', 'namespace Stbem.Rules.Gen', 'open Stbem.Rules', '',
-           'structure Entry where', '  k1 : Int', '  k2 : Int', '  returns : Bool', '  nodes : List Dec',
-           '  weights : List Dec', '  nodesD : List Dbl', '  weightsD : List Dbl', '']
+           '']
     for f in FAMILIES:
         names = []
         for e in fams[f]:
@@ -149,13 +148,83 @@ def emit(fams, lists):
     return '\n'.join(out)
 
 
+FAM_LEAN = {'log_quadrature_rule': 'log', 'log_log_quadrature_rule': 'loglog', 'sqrt_quadrature_rule': 'sqrt',
+            'sqrtinv_quadrature_rule': 'sqrtinv', 'gauss_sqrtinv_quadrature_rule': 'gaussSqrtinv',
+            'gauss_x_quadrature_rule': 'gaussX', 'gauss_log_quadrature_rule': 'gaussLog'}
+LIST_FAM = {'LOG_QUAD_RULES': 'log_quadrature_rule', 'LOG_LOG_QUAD_RULES': 'log_log_quadrature_rule',
+            'SQRT_QUAD_RULES': 'sqrt_quadrature_rule', 'SQRTINV_QUAD_RULES': 'sqrtinv_quadrature_rule'}
+CHUNK = 5
+
+
+def entry_names(fams):
+    out = {}
+    for f in FAMILIES:
+        names = []
+        for e in fams[f]:
+            nm = '%s_%s_%s' % (f, str(e['key'][0]).replace('-', 'm'), str(e['key'][1]).replace('-', 'm'))
+            if nm in names:
+                nm += '_dup%d' % len(names)
+            names.append(nm)
+        out[f] = names
+    return out
+
+
+def emit_checks(fams, lists):
+    """Returns {relative path under Stbem/Gen/RuleChecks: text}: per-entry certificates evaluated by the kernel."""
+    names = entry_names(fams)
+    files = {}
+    mods = []
+    for f in FAMILIES:
+        fl = FAM_LEAN[f]
+        for kind in ('lit', 'dbl'):
+            for c in range(0, len(names[f]), CHUNK):
+                mod = '%s_%s_%d' % (fl, kind, c // CHUNK)
+                body = ['/- GENERATED by translate/rules.py -- do not edit. -/', 'import Stbem.Gen.Rules',
+                        'namespace Stbem.Rules.Gen', 'open Stbem.Rules', 'set_option maxRecDepth 100000', '']
+                for nm in names[f][c:c + CHUNK]:
+                    body.append('theorem %s_%s : %sOK .%s %s = true := by decide +kernel' % (kind, nm, kind, fl, nm))
+                body += ['', 'end Stbem.Rules.Gen', '']
+                files[mod + '.lean'] = '\n'.join(body)
+                mods.append(mod)
+    agg = ['/- GENERATED by translate/rules.py -- do not edit. -/'] + ['import Stbem.Gen.RuleChecks.%s' % m for m in mods]
+    agg += ['namespace Stbem.Rules.Gen', 'open Stbem.Rules', 'set_option maxRecDepth 100000', '']
+    for f in FAMILIES:
+        fl = FAM_LEAN[f]
+        for kind in ('lit', 'dbl'):
+            agg.append('theorem %s_all_%s : %s.all (%sOK .%s) = true := by\n  simp only [%s, List.all_cons, List.all_nil, '
+                       '%s, Bool.and_self]' % (kind, f, f, kind, fl, f, ', '.join('%s_%s' % (kind, n) for n in names[f])))
+    for l in LISTS:
+        f = LIST_FAM[l]
+        agg.append('/-- every exported key has a branch -/\ntheorem available_%s :\n    %s.all (fun k => %s.any fun e => '
+                   'decide (e.k1 = k.1) && decide (e.k2 = k.2)) = true := by decide +kernel' % (l, l, f))
+    agg += ['', 'end Stbem.Rules.Gen', '']
+    files['All.lean'] = '\n'.join(agg)
+    return files
+
+
 def main(repo, dest):
     fams, lists = parse_rules(os.path.join(repo, 'src', 'quadrature_rules.py'))
     return emit(fams, lists), fams, lists
 
 
+def generate(repo, gen_dir, write):
+    """Writes Gen/Rules.lean and Gen/RuleChecks/*.lean through `write(path, text)`; removes stale check files."""
+    fams, lists = parse_rules(os.path.join(repo, 'src', 'quadrature_rules.py'))
+    write(os.path.join(gen_dir, 'Rules.lean'), emit(fams, lists))
+    files = emit_checks(fams, lists)
+    cdir = os.path.join(gen_dir, 'RuleChecks')
+    os.makedirs(cdir, exist_ok=True)
+    for name in os.listdir(cdir):
+        if name.endswith('.lean') and name not in files:
+            os.unlink(os.path.join(cdir, name))
+    for name, text in files.items():
+        write(os.path.join(cdir, name), text)
+    return fams, lists
+
+
 if __name__ == '__main__':
-    text, fams, lists = main(sys.argv[1] if len(sys.argv) > 1 else '/repo', None)
-    dest = sys.argv[2] if len(sys.argv) > 2 else os.path.join(os.path.dirname(os.path.abspath(__file__)), '..', 'lean', 'Stbem', 'Gen', 'Rules.lean')
-    open(dest, 'w').write(text)
-    print('wrote', dest, sum(len(v) for v in fams.values()), 'entries')
+    sys.path.insert(0, os.path.join(os.path.dirname(os.path.abspath(__file__)), '..'))
+    from harness.common import write_if_changed
+    gen = os.path.join(os.path.dirname(os.path.abspath(__file__)), '..', 'lean', 'Stbem', 'Gen')
+    fams, lists = generate(sys.argv[1] if len(sys.argv) > 1 else '/repo', gen, write_if_changed)
+    print('generated', sum(len(v) for v in fams.values()), 'entries')
